@@ -44,6 +44,7 @@ func init() {
 			{Name: "histories", QShards: 2, TShards: 6, Run: codecHistories(c06Formats...)},
 			{Name: "writefaults", QShards: 2, TShards: 8, Run: c07WriteFaults},
 			{Name: "writefaults-large", QShards: 10, TShards: 16, Run: c07WriteFaultsLarge},
+			{Name: "refusedcalls", TShards: 2, Run: c07RefusedCalls},
 			{Name: "filefaults", Thorough: true, Run: c07FileFaults},
 		},
 	})
@@ -576,6 +577,9 @@ func c07WriteFaults(c *Ctx) {
 						k.Count("healthy_writes_after_failed", 1)
 					}
 				}
+				if !refusedCalls(k, w.kind, w.write, r) {
+					return
+				}
 				k.Nontrivial([]byte(w.kind), want)
 			})
 			idx++
@@ -598,6 +602,9 @@ func genLargeWritable(r *rand.Rand, kind int, i int) writable {
 	// sizes by case number, so that even the quick tier's two cases per kind cover both sides of 16 KiB and 64 KiB
 	sizes := []int{17000, 70000, 9000, 33000, 4200, 16385, 66000, 20000}
 	size := sizes[(i+kind)%len(sizes)]
+	if i >= 1000 {
+		size = i
+	}
 	switch kind {
 	case 0:
 		rec := genFastaRecord(r, size)
@@ -692,7 +699,90 @@ func c07WriteFaultsLarge(c *Ctx) {
 						k.Count("healthy_writes_after_failed", 1)
 					}
 				}
+				if !refusedCalls(k, w.kind, w.write, r) {
+					return
+				}
 				k.Nontrivial([]byte(w.kind), want[:min(200, len(want))], []byte(fmt.Sprint(L)))
+			})
+			idx++
+		}
+	}
+}
+
+// callRefuser refuses exactly ONE call (the n-th Write it receives) and takes
+// every other one: a destination with a transient failure. Whatever was refused
+// is missing from the output, whichever call it was — the first, one in the
+// middle, the last but one.
+type callRefuser struct {
+	refuse, calls, got int
+}
+
+func (c *callRefuser) Write(p []byte) (int, error) {
+	c.calls++
+	if c.calls-1 == c.refuse {
+		return 0, errInjectedWrite
+	}
+	c.got += len(p)
+	return len(p), nil
+}
+
+// refusedCalls: for a Write that hands its text over in several calls, each
+// call in turn (all of them up to 60 calls, else the first and last 20 and 20
+// in between) is refused once. Reports false after a violation.
+func refusedCalls(k *K, kind string, write func(io.Writer) error, r *rand.Rand) bool {
+	counter := &callRefuser{refuse: -1}
+	if err := write(counter); err != nil {
+		return true
+	}
+	total := counter.calls
+	var js []int
+	for j := 0; j < total; j++ {
+		if total <= 60 || j < 20 || j >= total-20 {
+			js = append(js, j)
+		}
+	}
+	for j := 0; total > 60 && j < 20; j++ {
+		js = append(js, 20+r.IntN(total-40))
+	}
+	for _, j := range js {
+		cr := &callRefuser{refuse: j}
+		if err := write(cr); err == nil {
+			k.Input("refused_call", j)
+			k.Failf("write-error-swallowed", "%s.Write returned nil although the destination refused call %d of %d (it accepted all the others: %d bytes arrived)", kind, j+1, total, cr.got)
+			return false
+		}
+		k.Count("write_runs_with_one_refused_call", 1)
+		k.Evals(1)
+	}
+	return true
+}
+
+// c07RefusedCalls: records of 70 000 … 1 200 000 bytes of text (a Write that
+// streams its output hands such a record over in several pieces), each call of
+// the destination refused once in turn.
+func c07RefusedCalls(c *Ctx) {
+	sizes := []int{70000, 140000, 300000}
+	if c.Thorough {
+		sizes = append(sizes, 1200000)
+	}
+	idx := int64(0)
+	for kind := 0; kind < 5; kind++ {
+		for _, size := range sizes {
+			c.Case(idx, func(k *K) {
+				r := k.Rand()
+				w := genLargeWritable(r, kind, size)
+				k.Input("kind", w.kind)
+				k.Input("record", w.desc)
+				ok := &limitWriter{k: -1}
+				if err := w.write(ok); err != nil {
+					k.Failf("write-error", "%s.Write returned %v although the writer accepted everything", w.kind, err)
+					return
+				}
+				k.Count("write_ok_runs", 1)
+				if !refusedCalls(k, w.kind, w.write, r) {
+					return
+				}
+				k.Nontrivial([]byte(w.kind), []byte(fmt.Sprint("refusedcalls", size)))
 			})
 			idx++
 		}
